@@ -39,7 +39,7 @@ class CallMixin:
             if name in ("old", "implies", "result", "use", "hint", "iff", "fresh_ref", "subset", "union", "setminus", "mapdom",
                         "singleton", "setadd", "setdel", "mapset", "mapdel", "seqlen", "issub", "isinst", "typeof", "ite", "mapget",
                         "emptyset", "length", "inter", "exc_is", "some", "unopt", "isnone", "const", "cast", "elems", "distinct",
-                        "str_init", "str_last", "str_first", "has", "aslist", "inside", "confined", "rec_has", "rec_get", "rec_set", "log_count", "log_arg", "log_result", "module", "lower"):
+                        "str_init", "str_last", "str_first", "has", "aslist", "inside", "confined", "rec_has", "rec_get", "rec_set", "log_count", "log_arg", "log_result", "log_raised", "module", "lower"):
                 return Callable_("dslfn", name)
         mod = env.get("__mod__")
         if mod is not None:
@@ -240,18 +240,30 @@ class CallMixin:
     # ------------------------------------------------------------------ calls
     def ev_args(self, node, st):
         """yields (st, (args, kwargs)) or (st, Raise)"""
-        for a in node.args:
-            if isinstance(a, ast.Starred):
-                raise Unsupported("*args at call site", node)
+        plain = [a.value if isinstance(a, ast.Starred) else a for a in node.args]
+        starred = [isinstance(a, ast.Starred) for a in node.args]
         kws = [k for k in node.keywords]
-        if any(k.arg is None for k in kws):
-            raise Unsupported("**kwargs at call site", node)
-        for st1, vs in self.ev_list(list(node.args) + [k.value for k in kws], st):
+        for st1, vs in self.ev_list(plain + [k.value for k in kws], st):
             if isinstance(vs, Raise):
                 yield st1, vs
                 continue
             n = len(node.args)
-            yield st1, (vs[:n], {k.arg: v for k, v in zip(kws, vs[n:])})
+            args = []
+            for v, is_star in zip(vs[:n], starred):
+                if is_star and isinstance(v, PyList):
+                    args += v.items                      # *literal: spliced
+                else:
+                    args.append(v)                       # *sequence of unknown length: handed over as one value (the callee's *args)
+            kwargs = {}
+            for k, v in zip(kws, vs[n:]):
+                if k.arg is None:
+                    if isinstance(v, PyDict):
+                        kwargs.update(v.items)
+                    else:
+                        kwargs["__starstar__"] = v       # **mapping of unknown keys
+                else:
+                    kwargs[k.arg] = v
+            yield st1, (args, kwargs)
 
     def call(self, node, st):
         f = node.func
@@ -309,8 +321,12 @@ class CallMixin:
                                           args, kwargs, st, node)
             return
         if isinstance(obj, Val) and isinstance(obj.ty, TOpt) and isinstance(obj.ty.inner, TRef):
-            self.check(st, z3.Not(opt_isnone(obj)), "safe", "not-none@.%s()" % attr, node)
-            obj = opt_inner(obj)
+            for st1, isn in self.branch(st, opt_isnone(obj)):
+                if isn:
+                    yield st1, Raise(ExcVal("AttributeError"))
+                else:
+                    yield from self.call_attr(opt_inner(obj), attr, args, kwargs, st1, node)
+            return
         if isinstance(obj, Val) and isinstance(obj.ty, TRef):
             fty = self.field_type(obj.ty.cls, attr)
             if fty is not None:    # callable stored in a field: not supported
@@ -328,6 +344,9 @@ class CallMixin:
         yield from self.value_method(obj, attr, args, kwargs, st, node)
 
     def call_value(self, fn, args, kwargs, st, node):
+        if isinstance(fn, Val) and (isinstance(fn.ty, TRef) or (isinstance(fn.ty, TOpt) and isinstance(fn.ty.inner, TRef))):
+            yield from self.call_attr(fn, "__call__", args, kwargs, st, node)
+            return
         if not isinstance(fn, Callable_):
             raise Unsupported("call of non-callable %r" % (fn,), node)
         k = fn.kind
@@ -421,6 +440,12 @@ class CallMixin:
                 if f2 is not None and not feasible(st.pc, z3.Not(self.isinstance_term(obj, cand))):
                     yield from self.call_method(Val(TRef(cand), obj.terms), meth, args, kwargs, st, node)
                     return
+            op = self.opaque_spec(meth, clsname + "." + meth)
+            if op is not None:
+                for exc in self.opaque_raises(op[0]):
+                    yield st.clone(), Raise(ExcVal(exc))
+                yield st, self.opaque_call(op[0], clsname + "." + meth, [obj] + args, kwargs, st, node)
+                return
             raise Unsupported("method %s.%s not found" % (clsname, meth), node)
         qn = cinfo.module.name + "." + cinfo.name + "." + meth
         kind = cinfo.kinds.get(meth)
@@ -440,6 +465,8 @@ class CallMixin:
             return
         op = self.opaque_spec(fdef.name, qualname)
         if op is not None:
+            for exc in self.opaque_raises(op[0]):
+                yield st.clone(), Raise(ExcVal(exc))
             yield st, self.opaque_call(op[0], qualname, args, kwargs, st, node)
             return
         if cinfo is not None:
@@ -461,7 +488,12 @@ class CallMixin:
                 return (table[k],)
         return None
 
+    def opaque_raises(self, spec):
+        return list(spec[1]) if isinstance(spec, tuple) else []
+
     def opaque_call(self, spec, qualname, args, kwargs, st, node):
+        if isinstance(spec, tuple):
+            spec = spec[0]
         self.note_assumption("slice: %s is opaque here (returns an arbitrary value of its declared type, changes no modelled state)" % qualname)
         if spec == "self" or spec == "arg0":
             return args[0]
@@ -491,6 +523,10 @@ class CallMixin:
             env[a.vararg.arg] = PyList(args[len(names):], is_tuple=True)
         kwonly = [x.arg for x in a.kwonlyargs]
         for k, v in kwargs.items():
+            if k == "__starstar__":
+                if a.kwarg is not None:
+                    env[a.kwarg.arg] = v
+                continue
             if k in names or k in kwonly:
                 if k in env:
                     raise Unsupported("duplicate argument %s" % k, node)
@@ -642,10 +678,14 @@ class CallMixin:
                 yield st, Raise(ExcVal("AttributeError"))
         elif name == "type":
             (x,) = args
+            self._cur_st_any = st
             yield st, self.type_of(x, node)
         elif name == "dict":
-            if not args:
+            if not args and "__starstar__" not in kwargs:
                 yield st, PyDict(kwargs)
+            elif self.cur_ci is not None and self.cur_ci.decl.opts.get("opaque") is not None:
+                self.note_assumption("slice: dict(mapping, ...) yields an untracked dictionary")
+                yield st, fresh(TOpaque("Any"), "dictcopy")
             else:
                 raise Unsupported("dict(x)", node)
         else:
@@ -663,8 +703,11 @@ class CallMixin:
         return mk_int(n)
 
     def type_of(self, x, node):
+        if isinstance(x, Val) and isinstance(x.ty, TOpt):
+            self.check(self._cur_st_any, z3.Not(opt_isnone(x)), "safe", "not-none@type()", node)
+            x = opt_inner(x)
         if isinstance(x, Val):
-            m = {TStr: "str", TInt: "int", TBool: "bool", TBytes: "bytes"}
+            m = {TStr: "str", TInt: "int", TBool: "bool", TBytes: "bytes", TSeq: "list", TRec: "dict", TMap: "dict", TSet: "set", TLSet: "list"}
             for t, n in m.items():
                 if isinstance(x.ty, t):
                     return Callable_("builtin", n)
@@ -788,11 +831,11 @@ class CallMixin:
             return
         if isinstance(ty, TSeq):
             if meth == "append":
-                new = Val(ty, [z3.Concat(obj.t, z3.Unit(coerce(args[0], ty.elem).t))])
+                new = Val(ty, [z3.Concat(obj.t, z3.Unit(self.narrow(st, args[0], ty.elem, node, "list.append").t))])
                 self.write_back(lv, new, st, node)
                 yield st, NONE
             elif meth == "extend":
-                new = Val(ty, [z3.Concat(obj.t, coerce(args[0], ty).t)])
+                new = Val(ty, [z3.Concat(obj.t, self.narrow(st, args[0], ty, node, "list.extend").t)])
                 self.write_back(lv, new, st, node)
                 yield st, NONE
             else:
@@ -846,5 +889,18 @@ class CallMixin:
                 dflt = empty_map(ft.key, ft.val)
             for st1, ok in self.branch(st, obj.terms[lo]):
                 yield st1, (Val(ft, obj.terms[lo + 1:hi]) if ok else dflt)
+            return
+        if meth == "update" and len(args) == 1 and isinstance(args[0], Val) and isinstance(args[0].ty, TRec) and args[0].ty.rname == ty.rname:
+            other = args[0]
+            terms = list(obj.terms)
+            for f in ty.fields:
+                lo, hi, ft = ty.field_slice(f)
+                present = other.terms[lo]
+                terms[lo] = z3.Or(obj.terms[lo], present)
+                for j in range(lo + 1, hi):
+                    terms[j] = z3.If(present, other.terms[j], obj.terms[j])
+            terms[-1] = z3.Const(fresh_name("recrest"), terms[-1].sort())      # the undeclared keys: merged, untracked
+            self.write_back(lv, Val(ty, terms), st, node)
+            yield st, NONE
             return
         raise Unsupported("dict(record).%s" % meth, node)
